@@ -387,6 +387,92 @@ class ExprGen(object):
             return node
         return ast.Yield(sub() if rng.random() < 0.7 else None)
 
+    # -- mostly well-typed expressions (C03: values rather than TypeErrors)
+    def int_name(self):
+        r = self.rng.random()
+        if self.bound and r < 0.4:
+            return ast.Name(self.rng.choice(self.bound), ast.Load())
+        if r < 0.4 + self.p_undef:
+            return ast.Name(self.rng.choice(NAMES_UNDEF), ast.Load())
+        return ast.Name(self.rng.choice(['a', 'b', 'c', 'x', 'y', 'n']), ast.Load())
+
+    def int_expr(self, d=0):
+        rng = self.rng
+        sub = lambda: self.int_expr(d + 1)
+        if d >= self.maxdepth or rng.random() < 0.15 + 0.08 * d:
+            return self.int_name() if rng.random() < 0.6 else ast.Constant(rng.choice([0, 1, 2, 3, 5, 7, 10]))
+        r = rng.random()
+        if r < 0.25:
+            op = rng.choice([ast.Add, ast.Sub, ast.Mult, ast.FloorDiv, ast.Mod, ast.BitAnd, ast.BitOr, ast.BitXor, ast.Add, ast.Sub, ast.Mult])()
+            return ast.BinOp(sub(), op, sub())
+        if r < 0.30:
+            return ast.BinOp(sub(), rng.choice([ast.Pow, ast.LShift, ast.RShift])(), ast.Constant(rng.choice([0, 1, 2, 3])))
+        if r < 0.38:
+            return ast.UnaryOp(rng.choice([ast.USub, ast.UAdd, ast.Invert])(), sub())
+        if r < 0.46:
+            return ast.IfExp(self.cond(d + 1), sub(), sub())
+        if r < 0.52:
+            return ast.Call(ast.Name(rng.choice(['abs', 'int', 'f', 'max', 'len']), ast.Load()), [sub()], []) \
+                if rng.random() < 0.6 else ast.Call(ast.Name('len', ast.Load()), [rng.choice([ast.Name('items', ast.Load()), ast.Name('s', ast.Load())])], [])
+        if r < 0.58:
+            return ast.Subscript(ast.Name('items', ast.Load()), rng.choice([ast.Constant(0), ast.UnaryOp(ast.USub(), ast.Constant(1)), sub()]), ast.Load())
+        if r < 0.64:
+            k = rng.choice(['a', 'k', 'b', 'x', 'val'])
+            base = ast.Name(rng.choice(['d', 'obj']), ast.Load())
+            return ast.Attribute(base, k, ast.Load()) if rng.random() < 0.5 else ast.Subscript(base, ast.Constant(k), ast.Load())
+        if r < 0.76:
+            saved = list(self.bound)
+            rngp = ['p', 'q', 'r', 'u', 'v', 'w']
+            rng.shuffle(rngp)
+            npos, nargs, nkw = rng.choice([0, 0, 1]), rng.choice([0, 1, 2]), rng.choice([0, 0, 1])
+            posonly = [ast.arg(rngp.pop()) for _ in range(npos)]
+            args = [ast.arg(rngp.pop()) for _ in range(nargs)]
+            kwonly = [ast.arg(rngp.pop()) for _ in range(nkw)]
+            ndef = rng.randrange(0, npos + nargs + 1)
+            defaults = [sub() for _ in range(ndef)]
+            kw_defaults = [sub() if rng.random() < 0.7 else None for _ in range(nkw)]
+            a = ast.arguments(posonlyargs=posonly, args=args, vararg=None, kwonlyargs=kwonly, kw_defaults=kw_defaults,
+                              kwarg=None, defaults=defaults)
+            self.bound = self.bound + [x.arg for x in posonly + args + kwonly]
+            body = sub()
+            self.bound = saved
+            call_args = [sub() for _ in range(npos + nargs - (rng.randrange(0, ndef + 1)))]
+            kws = [ast.keyword(x.arg, sub()) for x, dflt in zip(kwonly, kw_defaults) if dflt is None or rng.random() < 0.5]
+            return ast.Call(ast.Lambda(a, body), call_args, kws)
+        if r < 0.90:
+            saved = list(self.bound)
+            gens = []
+            for gi in range(rng.choice([1, 1, 2])):
+                it = rng.choice([ast.Name('items', ast.Load()),
+                                 ast.Call(ast.Name('range', ast.Load()), [ast.Constant(rng.choice([0, 2, 3]))], []),
+                                 ast.List([sub() for _ in range(rng.randrange(0, 3))], ast.Load())])
+                nm = rng.choice(['i', 'j', 'k', 'x', 'a'])
+                self.bound = self.bound + [nm]
+                ifs = [self.cond(d + 1) for _ in range(rng.choice([0, 0, 1]))]
+                gens.append(ast.comprehension(ast.Name(nm, ast.Store()), it, ifs, 0))
+            elt = sub()
+            self.bound = saved
+            if rng.random() < 0.5:
+                return ast.Call(ast.Name(rng.choice(['sum', 'len']), ast.Load()), [ast.ListComp(elt, gens)], [])
+            return ast.Call(ast.Name('sum', ast.Load()), [ast.GeneratorExp(elt, gens)], [])
+        return ast.BoolOp(rng.choice([ast.And, ast.Or])(), [sub(), sub()])
+
+    def cond(self, d):
+        rng = self.rng
+        r = rng.random()
+        if r < 0.5:
+            n = rng.choice([1, 1, 2])
+            ops = [rng.choice([ast.Eq, ast.NotEq, ast.Lt, ast.LtE, ast.Gt, ast.GtE])() for _ in range(n)]
+            return ast.Compare(self.int_expr(d + 1), ops, [self.int_expr(d + 1) for _ in range(n)])
+        if r < 0.65:
+            return ast.UnaryOp(ast.Not(), self.cond(d + 1) if d < self.maxdepth else self.int_name())
+        if r < 0.8:
+            return ast.BoolOp(rng.choice([ast.And, ast.Or])(), [self.cond(d + 1) if d < self.maxdepth else self.int_name(),
+                                                              self.int_expr(d + 1)])
+        if r < 0.9:
+            return ast.Compare(self.int_expr(d + 1), [rng.choice([ast.In, ast.NotIn])()], [ast.Name('items', ast.Load())])
+        return self.int_expr(d + 1)
+
     def elts(self, d):
         out = []
         for _ in range(self.rng.randrange(0, 4)):
